@@ -116,6 +116,7 @@ class ElemE:
     lookup: Any = None      # for looked-up nodes: (site, idval descr, wildcard)
     idsym: int = 0          # symbol of the id string this node's id equals (for lookups)
     text: Any = None        # written text, if any
+    stag: Optional[str] = None   # tag used for schema lookups when it differs from .tag (retagged copies)
     copy_of: Optional[int] = None
     born: int = 0
 
@@ -179,7 +180,7 @@ class DictE:
 
 # ------------------------------------------------------------------ frames
 class Frame:
-    __slots__ = ('env', 'func', 'cur_exc', 'site', 'loops', 'depth')
+    __slots__ = ('env', 'func', 'cur_exc', 'site', 'loops', 'depth', 'callnode')
 
     def __init__(self, func, site=None, depth=0):
         self.env: Dict[str, Val] = {}
@@ -188,12 +189,14 @@ class Frame:
         self.site = site
         self.loops = 0
         self.depth = depth
+        self.callnode = None
 
     def copy(self):
         f = Frame(self.func, self.site, self.depth)
         f.env = dict(self.env)
         f.cur_exc = self.cur_exc
         f.loops = self.loops
+        f.callnode = self.callnode
         return f
 
 
@@ -202,6 +205,9 @@ class Event:
     kind: str
     data: Tuple
     site: Any = None
+
+
+_SORTED: Dict[Tuple, Tuple] = {}
 
 
 def S(sym):
@@ -228,6 +234,7 @@ class State:
         self.trace: Tuple = ()
         self.serial = 0
         self.lookups: Dict[Tuple, int] = {}              # (parent, tag, idsym) -> node sym (memo)
+        self.effects = 0                                 # number of side effects so far (not part of the key)
 
     def copy(self) -> 'State':
         s = State.__new__(State)
@@ -239,6 +246,7 @@ class State:
         s.trace = self.trace
         s.serial = self.serial
         s.lookups = dict(self.lookups)
+        s.effects = self.effects
         return s
 
     # -- heap
@@ -257,6 +265,12 @@ class State:
     def frame(self) -> Frame:
         return self.frames[-1]
 
+    def effect(self):
+        """A side effect happened: results of pure property evaluations are no longer reusable."""
+        self.effects += 1
+        if self.mon.get('propmemo'):
+            self.mon['propmemo'] = {}
+
     def emit(self, kind, *data, site=None):
         self.trace = (self.trace, Event(kind, data, site))
 
@@ -270,38 +284,47 @@ class State:
         return out
 
     # -- canonical key (for de-duplication and loop fix-points)
-    def key(self, extra=None):
+    def key(self, extra=None, ignore=()):
         mapping: Dict[int, int] = {}
         out: List = []
 
+        heap = self.heap
+
         def vkey(v):
-            if isinstance(v, Ref):
-                return ('R', v.kind, skey(v.sym))
-            if isinstance(v, TupleV):
-                return ('T',) + tuple(vkey(x) for x in v.items)
-            if isinstance(v, StrV):
+            t = type(v)
+            if t is Ref:
+                s = v.sym
+                return ('R', v.kind, mapping[s] if s in mapping else skey(s))
+            if t is Const or t is ClsV or t is FuncV or t is ExtV or t is ModV:
+                return v
+            if t is NoneV:
+                return ('N', okey(v.origin)) if v.origin is not None else 'N'
+            if t is StrV:
                 return ('S', okey(v.origin), 1 if v.sym else 0)
-            if isinstance(v, NoneV):
-                return ('N', okey(v.origin))
-            if isinstance(v, NumV):
-                return ('Num',)
-            if isinstance(v, BoundV):
+            if t is TupleV:
+                return ('T',) + tuple([vkey(x) for x in v.items])
+            if t is NumV:
+                return 'Num'
+            if t is BoundV:
                 return ('B', vkey(v.recv), v.qual)
-            if isinstance(v, MethV):
+            if t is MethV:
                 return ('M', vkey(v.recv), v.name)
-            if isinstance(v, IterV):
+            if t is IterV:
                 return ('I', v.kind, vkey(v.src), vkey(v.start))
-            if isinstance(v, ExcV):
+            if t is ExcV:
                 return ('E', v.cls, v.implicit)
-            if isinstance(v, Unknown):
-                return ('U',)
+            if t is Unknown:
+                return 'U'
+            if t is LenV:
+                return ('L', mapping[v.sym] if v.sym in mapping else skey(v.sym))
             return v
 
         def okey(o):
-            if isinstance(o, tuple):
+            if type(o) is tuple:
                 if len(o) == 2 and o[0] == '$':
-                    return ('$', skey(o[1]))
-                return tuple(okey(x) for x in o)
+                    s = o[1]
+                    return ('$', mapping[s] if s in mapping else skey(s))
+                return tuple([okey(x) if type(x) is tuple else x for x in o])
             return o
 
         def skey(sym):
@@ -309,23 +332,26 @@ class State:
                 return mapping[sym]
             n = len(mapping) + 1
             mapping[sym] = n
-            e = self.heap.get(sym)
+            e = heap.get(sym)
             if e is None:
                 out.append((n, None))
                 return n
-            if isinstance(e, ElemE):
-                k = ('elem', e.prov, e.tag, skey(e.parent) if e.parent else None, e.attached,
-                     okey(e.origin), e.schema, bool(e.lookup), e.lookup[2] if e.lookup else None)
-            elif isinstance(e, IdxE):
-                k = ('idx', e.kind, skey(e.parent) if e.parent else None,
-                     skey(e.anchor) if e.anchor else None, e.delta, e.slack, e.const)
-            elif isinstance(e, ListE):
-                k = ('list', e.kind, e.lo, e.hi, skey(e.parent) if e.parent else None, e.tag,
-                     tuple(vkey(x) for x in e.items), skey(e.src) if e.src else None, e.ordered, e.spec)
-            elif isinstance(e, ObjE):
-                k = ('obj', e.cls, tuple((a, vkey(b)) for a, b in e.fields))
-            elif isinstance(e, DictE):
-                k = ('dict', tuple((vkey(a), vkey(b)) for a, b in e.items), e.exact)
+            t = type(e)
+            if t is ElemE:
+                p = e.parent
+                k = ('e', e.prov, e.tag, (mapping[p] if p in mapping else skey(p)) if p else None, e.attached,
+                     okey(e.origin), e.schema, e.lookup[2] if e.lookup else None, e.stag)
+            elif t is IdxE:
+                p, a = e.parent, e.anchor
+                k = ('i', e.kind, (mapping[p] if p in mapping else skey(p)) if p else None,
+                     (mapping[a] if a in mapping else skey(a)) if a else None, e.delta, e.slack, e.const)
+            elif t is ListE:
+                k = ('l', e.kind, e.lo, e.hi, skey(e.parent) if e.parent else None, e.tag,
+                     tuple([vkey(x) for x in e.items]), skey(e.src) if e.src else None, e.ordered, e.spec)
+            elif t is ObjE:
+                k = ('o', e.cls, tuple([(a, vkey(b)) for a, b in e.fields]))
+            elif t is DictE:
+                k = ('d', tuple([(vkey(a), vkey(b)) for a, b in e.items]), e.exact)
             else:
                 k = ('?', repr(e))
             out.append((n, k))
@@ -333,8 +359,12 @@ class State:
 
         fk = []
         for f in self.frames:
+            env = f.env
+            names = _SORTED.get(tuple(env))
+            if names is None:
+                names = _SORTED[tuple(env)] = tuple(sorted(env))
             fk.append((f.func.qualname if f.func else None,
-                       tuple((name, vkey(f.env[name])) for name in sorted(f.env)),
+                       tuple([(name, vkey(env[name])) for name in names if name not in ignore]),
                        vkey(f.cur_exc) if f.cur_exc is not None else None))
         mk = []
 
@@ -344,7 +374,9 @@ class State:
             v = self.mon[name]
             if name in ('textsyms',):
                 continue          # string identities: compared through facts only
-            if name in ('attrib_of', 'descend_of'):
+            if name == 'propmemo':
+                mk.append((name, tuple(sorted((((cs(a[0]), a[1]), vkey(b)) for a, b in v.items() if a[0] in mapping), key=repr))))
+            elif name in ('attrib_of', 'descend_of'):
                 mk.append((name, tuple(sorted((cs(a), cs(b)) for a, b in v.items() if a in mapping))))
             elif name == 'nth':
                 mk.append((name, tuple(sorted(((cs(a[1]),) + a[2:], cs(b)) for a, b in v.items() if a[1] in mapping and b in mapping))))
